@@ -1256,10 +1256,15 @@ class Engine:
                 env[n] = kwargs[n]
             elif i >= dstart:
                 self.frames.append(mod_frame)
+                mark = len(self.trace)
                 try:
                     env[n] = self.eval(defaults[i - dstart])
                 finally:
                     self.frames.pop()
+                # Python evaluates a default ONCE, when the function is defined: whatever the expression calls did
+                # not happen during this call (a default `iv=get_random_bytes(16)` is one value for the whole process)
+                for e in self.trace[mark:]:
+                    e.kind = "deftime:" + e.kind
             else:
                 raise EngineError("missing argument %s for %s" % (n, fr.key))
         for a, d in zip(params.kwonlyargs, params.kw_defaults):
@@ -1267,10 +1272,13 @@ class Engine:
                 env[a.arg] = kwargs[a.arg]
             elif d is not None:
                 self.frames.append(mod_frame)
+                mark = len(self.trace)
                 try:
                     env[a.arg] = self.eval(d)
                 finally:
                     self.frames.pop()
+                for e in self.trace[mark:]:
+                    e.kind = "deftime:" + e.kind
             else:
                 raise EngineError("missing kw argument %s" % a.arg)
         for k in kwargs:
